@@ -540,6 +540,12 @@ class Shard:
             if p is not None:
                 body["namespacePrivilegeParam"] = p
             self.adm("POST", V2 + "/user/add", j=body)
+            if p is not None and p.get("blacklist") and n % 2 == 0:
+                # a later edit by the admin that says nothing about the blacklist (new nickname, the whitelist part as it is): what an
+                # update does not mention stays as it was
+                part = {k: p[k] for k in ("whitelistIsAll", "whitelist") if k in p}
+                self.adm("POST", V2 + "/user/update", j={"username": u["name"], "nickname": "edited " + u["name"], "namespacePrivilegeParam": part})
+                u["edited_without_blacklist"] = True
         r = self.adm("GET", V2 + "/user/list", {"pageNo": 1, "pageSize": 1000})
         stored = {x["username"]: x for x in r.json()["data"]["list"]}
         for u in self.users:
@@ -552,7 +558,7 @@ class Shard:
             ok = got.get("enabled") is True and bool(got.get("whitelistIsAll")) == want["whitelistIsAll"] and bool(got.get("blacklistIsAll")) == want["blacklistIsAll"] \
                 and sorted(got.get("whitelist") or []) == sorted(want["whitelist"]) and sorted(got.get("blacklist") or []) == sorted(want["blacklist"]) \
                 and s.get("roles") == [ROLES[u["role"]]]
-            if not ok and u.get("via_update"):
+            if not ok and (u.get("via_update") or u.get("edited_without_blacklist")):
                 # not an infrastructure problem: the acknowledged update did not take effect; the sweep below judges the user
                 # against the privilege the admin asked for
                 self.update_not_stored = getattr(self, "update_not_stored", []) + [{"user": u["name"], "requested": want, "stored": got}]
